@@ -12,7 +12,7 @@ import (
 // ---- C11 / C12: CORS ----
 
 var zzOrigins = [][]string{nil, {"*"}, {"o1"}, {"o1", "o2"}, {"o1", "*"}}
-var zzAllowHdrs = [][]string{nil, {"*"}, {"X-A"}, {"X-A", "Content-Type"}}
+var zzAllowHdrs = [][]string{nil, {"*"}, {"X-A"}, {"X-A", "Content-Type"}, {"X-A", "b-c"}}
 var zzExposed = [][]string{nil, {"E1"}, {"E1", "E2"}}
 
 func zzLower(c byte) byte {
